@@ -35,6 +35,18 @@ Definition py_nonempty_list {A} (l : list A) : bool := match l with [] => false 
 (* s.rsplit(c, 1)[0] *)
 Definition py_rsplit1_head (c : ascii) (s : str) : str := join_with c (removelast (split_on c s)).
 
+(* a pandas-metadata block of a partition column as far as util.val_from_meta looks at it: meta['pandas_type'], meta['numpy_type'],
+   (meta.get('metadata') or {}).get('labels') (the block of the labels of a categorical, when the writer recorded it); the time zone
+   of a tz-aware column is inside the external conversion *)
+Inductive pmeta := PMeta (pandas_type numpy_type : str) (labels : option pmeta).
+
+(* try: BODY  except ValueError: HANDLER   (every other exception propagates) *)
+Definition py_except_ValueError {A} (body : res A) (handler : res A) : res A :=
+  match body with VErr => handler | r => r end.
+
+(* enumerate(l) *)
+Definition py_enumerate {A} (l : list A) : list (nat * A) := mapi_from (fun i v => (i, v)) 0 l.
+
 Section PyValues.
   Variables F T D : Type.
   Variable show_float : F -> str.
